@@ -400,7 +400,7 @@ class OpsMixin:
             return "{" + ", ".join(f"{self.to_repr(k)}: {self.to_repr(x)}" for k, x in v.items()) + "}"
         if isinstance(v, (set, frozenset)):
             self.flags.add("set-iterated")
-            return "{" + ", ".join(self.to_repr(x) for x in sorted(v, key=repr)) + "}"
+            return "{" + ", ".join(self.to_repr(x) for x in self.order_set(v)) + "}"
         if isinstance(v, ClassRef):
             return f"<class '{v.ci.name}'>"
         if isinstance(v, ExcObj):
@@ -880,7 +880,7 @@ class OpsMixin:
                         if not recv:
                             self.raise_builtin("KeyError", "pop from an empty set")
                         self.flags.add("set-iterated")
-                        x = sorted(recv, key=repr)[0]
+                        x = self.order_set(recv)[0]
                         recv.remove(x)
                         return x
             except TypeError:
